@@ -273,7 +273,7 @@ func c01RowIDs(c *Ctx, rule string) {
 					}
 				}
 			case *ast.UnaryExpr:
-				if y.Op == token.AND {
+				if y.Op == token.AND && !addrIsWriteOperand(f, y) {
 					if sel, ok := ast.Unparen(y.X).(*ast.SelectorExpr); ok {
 						if v := fieldVar(f, sel); v != nil && v.Name() == "lastKey" && w.Locks().isStoreField(v) {
 							tgt, kind = y.X, "&"
@@ -801,4 +801,16 @@ func reachableAvoiding(g *Graph, target Loc, avoid func(ast.Node) bool) bool {
 		return Go
 	}, nil)
 	return hit
+}
+
+// addrIsWriteOperand: &x is the data operand of binary.Write — the pointee is only read.
+func addrIsWriteOperand(f *Func, u *ast.UnaryExpr) bool {
+	found := false
+	ast.Inspect(f.Decl.Body, func(x ast.Node) bool {
+		if call, ok := x.(*ast.CallExpr); ok && f.CallIs(call, "binary.Write") && len(call.Args) == 3 && ast.Unparen(call.Args[2]) == ast.Expr(u) {
+			found = true
+		}
+		return !found
+	})
+	return found
 }
